@@ -2422,8 +2422,14 @@ def _r04d(P, R):
     r04d(P, R)
 
 
+def _r04f(P, R):
+    # duplicate-name searches (shared with C04): a search that misses an earlier definition accepts a duplicate
+    from c04 import r04f
+    r04f(P, R)
+
+
 RULES = [("R03-a", r03a), ("R03-b", r03b), ("R03-c", r03c), ("R03-d", r03d), ("R03-e", r03e), ("R03-f", r03f), ("R03-j", r03j),
-         ("R03-g", r03g), ("R03-h", r03h), ("R03-i", r03i), ("R04-c", _r04c), ("R04-d", _r04d)]
+         ("R03-g", r03g), ("R03-h", r03h), ("R03-i", r03i), ("R04-c", _r04c), ("R04-d", _r04d), ("R04-f", _r04f)]
 EXPLANATION = (
     "`check` applies every implemented rule at every position it governs, decided for all documents: (R03-a) non-interference — "
     "every content field of the executable AST is read by a function reachable from check_operation_document and the sum types are "
